@@ -200,6 +200,18 @@ def check(drv, pid, tier, seed):
     if viol > reported:
         print('(%d further mismatching cases not written out)' % (viol - reported))
     nobl, names = drv.count_obligations(cfg['files'])
+    coqchk = None
+    if tier == 'thorough' and os.path.exists(os.path.join(drv.COQ, pid + '.vo')):
+        # independent re-check of the property file and everything it depends on; lists the axioms
+        tk = time.time()
+        with drv.Lock():
+            rc, out = drv.run(['timeout', '3000', 'coqchk', '-silent', '-o', '-R', drv.COQ, 'Verif', 'Verif.' + pid], cwd=drv.COQ)
+        summary = out[out.find('CONTEXT SUMMARY'):] if 'CONTEXT SUMMARY' in out else out[-1500:]
+        coqchk = dict(exit=rc, seconds=round(time.time() - tk, 1), summary=' | '.join(l.strip() for l in summary.split('\n') if l.strip()))
+        if rc != 0:
+            viol += 1
+            violation(drv, pid, dict(property=pid, seed=seed, tier=tier, case='coqchk', kind='proof-obligation',
+                                     theorem_or_correspondence='coqchk rejected %s.vo or one of its dependencies' % pid, output=out[-3000:]), 'no-failing-input-found')
     ev = dict(property_id=pid, tier=tier, seed=seed, level='proof',
               coverage=dict(obligations=nobl, discharged=nobl,
                             checker_cmd='cd /verif/coq && coq_makefile -f _CoqProject -o Makefile && make -j16  (coqc 8.16.1, full .vo build); then coqc on build/%s/cases_*.v (vm_compute of the model on the generated histories)' % pid,
@@ -210,7 +222,7 @@ def check(drv, pid, tier, seed):
                             op_histogram=meta.get('op_histogram'), outcome_histogram=meta.get('outcome_histogram'),
                             type_histogram=meta.get('type_histogram'), length_histogram=meta.get('length_histogram'), extra=meta.get('extra'),
                             hangs=meta.get('hangs', 0), mismatching_cases=len(mism),
-                            params=info.get('genparams'), obligations_files=cfg['files'],
+                            params=info.get('genparams'), obligations_files=cfg['files'], coqchk=coqchk,
                             timings=dict(build_s=info.get('coq_make_s'), go_build_s=info.get('go_build_s'), gen_s=gen_s, coqc_cases_s=coq_s)),
               assumptions=TRUSTED_COMMON, wall_s=round(time.time() - t0, 1), violations=viol)
     drv.write_evidence(pid, ev)
